@@ -37,7 +37,7 @@ struct EpHarness : Harness {
     std::vector<std::string> props() const override { return {"C17"}; }
     std::vector<std::string> probes(const std::string &) const override {
         return {"eintr_retried", "eagain_retried", "zero_return_retried", "partial_then_rest", "hard_error_after_prefix", "octet_driver_through_chunk_api",
-                "chunk_driver_through_octet_api", "aux_smaller_than_n_multiple_rounds", "drain_end_mid_chunk", "drain_to_end_of_stream", "invalid_count_refused", "source_lends_its_buffer", "stream_in_library_buffer_source", "stream_in_library_chunk_source", "output_in_library_buffer_sink", "chunk_list_with_empty_chunk", "trivial_endpoint", "count_of_64k_octets_or_more_really_moved", "huge_transfer_in_one_call", "huge_transfer_in_pieces", "huge_piece_of_4gib_or_more"};
+                "chunk_driver_through_octet_api", "aux_smaller_than_n_multiple_rounds", "drain_end_mid_chunk", "drain_to_end_of_stream", "invalid_count_refused", "source_lends_its_buffer", "stream_in_library_buffer_source", "stream_in_library_chunk_source", "output_in_library_buffer_sink", "chunk_list_with_empty_chunk", "trivial_endpoint", "endpoints_from_static_initialisers", "count_of_64k_octets_or_more_really_moved", "huge_transfer_in_one_call", "huge_transfer_in_pieces", "huge_piece_of_4gib_or_more"};
     }
     uint64_t runs(const std::string &, const Tier &t) const override { return t.thorough() ? 12000000 : 3000000; }
     unsigned time_limit(const Json &plan) const override { const Json &ops = plan.get("ops"); for (size_t i = 0; i < ops.size(); ++i) if (ops.at(i).gets("op") == "n_cbc_long") return 1500; return 60; }
@@ -93,7 +93,7 @@ struct EpHarness : Harness {
             return p;
         }
         bool so = r.chance(1, 2), ko = r.chance(1, 2);
-        p["src_octet"] = so; p["snk_octet"] = ko;
+        p["src_octet"] = so; p["snk_octet"] = ko; if (r.chance(1, 3)) p["macro_init"] = 1;
         int maxn = t.thorough() ? (r.chance(1, 8) ? 4096 : (r.chance(1, 3) ? 64 : 6)) : 6;
         int nops = (int)r.range(1, t.thorough() ? 12 : 6);
         int maxscript = t.thorough() ? (r.chance(1, 4) ? 64 : 8) : 8;
@@ -187,6 +187,7 @@ struct EpHarness : Harness {
 
     void exec(const Json &plan, Ctx &c) override {
         Run R(c);
+        g_bind_with_macros = plan.geti("macro_init") != 0; if (g_bind_with_macros) COUNT("probe.endpoints_from_static_initialisers");
         R.src.octet_kind = plan.geti("src_octet") != 0;
         R.snk.octet_kind = plan.geti("snk_octet") != 0;
         int64_t len = plan.geti("len"); if (len < 0) len = 0; if (len > 1 << 20) len = 1 << 20;
@@ -219,7 +220,11 @@ struct EpHarness : Harness {
                 if (at < total) add_buf(total - at, 0, 0);
             }
             if (one) source_from_buffer(&inner_src, &bufs[0]);
-            else { chunks.chunk = bufs.data(); chunks.chunks = bufs.size(); chunks.active = 0; source_from_chunks(&inner_src, &chunks); }
+            else {
+                chunks.chunk = bufs.data(); chunks.chunks = bufs.size(); chunks.active = 0;
+                if (g_bind_with_macros && bufs.size() == 3) { chunks = hm_byte_chunks3((ByteBuffer(*)[3])bufs.data()); COUNT("probe.chunk_list_from_BYTE_CHUNKS"); }
+                source_from_chunks(&inner_src, &chunks);
+            }
             R.src.inner = &inner_src;
             COUNT(one ? "probe.stream_in_library_buffer_source" : "probe.stream_in_library_chunk_source");
         }
